@@ -124,6 +124,29 @@ func cmdC16(r *RNG, n int, e *Emitter, args []string) {
 				e.Count("family=huge-wrap-corner")
 			}
 		}
+		forceD := false
+		if i%13 == 3 {
+			// exactly collinear runs on a line with a large odd direction vector (products of coordinate differences need
+			// more than 53 bits but are EQUAL, so the float cross product is exactly 0), closed by two vertices off the line
+			dx, dy := r.Range(1<<20, 1<<25)|1, r.Range(1<<20, 1<<25)|1
+			if r.Bool() {
+				dy = -dy
+			}
+			x0, y0 := r.Range(-(1 << 20), 1<<20), r.Range(-(1 << 20), 1<<20)
+			m := 3 + r.Intn(4)
+			p = clip.Path64{}
+			t := int64(0)
+			for j := 0; j < m; j++ {
+				p = append(p, clip.Point64{X: x0 + t*dx, Y: y0 + t*dy})
+				t += r.Range(1, 2)
+			}
+			p = append(p, clip.Point64{X: x0 + t*dx - dy, Y: y0 + t*dy + dx}, clip.Point64{X: x0 - dy, Y: y0 + dx})
+			k0 := r.Intn(len(p))
+			p = append(append(clip.Path64{}, p[k0:]...), p[:k0]...)
+			eps = []float64{0, 0, 1e-9, 0.25}[r.Intn(4)]
+			forceD = true
+			e.Count("family=large-direction-collinear-run")
+		}
 		closed := r.Bool()
 		p0 := append(clip.Path64{}, p...)
 		var out clip.Path64
@@ -178,7 +201,7 @@ func cmdC16(r *RNG, n int, e *Emitter, args []string) {
 			e.Nontrivial(sb.String())
 		}
 		// the float version on the same points scaled by 2^-k (exact in binary), down to micro scale
-		if r.Intn(3) == 0 {
+		if forceD || r.Intn(3) == 0 {
 			k := []int{3, 3, 3, 10, 20, 30, 40}[r.Intn(7)]
 			sc := math.Ldexp(1, -k)
 			pd := make(clip.PathD, len(p0))
